@@ -366,6 +366,64 @@ static void run_doc_program(const DocProgram& P) {
   snprintf(sch::g_res->outcome, sizeof sch::g_res->outcome, "%s", out.c_str());
 }
 
+// scenario P: documents of several threads over ONE shared pool (SONIC_LOCKED_ALLOCATOR): every Parse - also one
+// that FAILS and takes the error path - allocates (and may release) through the shared allocator while the other
+// thread is inside its own Parse. Scheduling points: the allocator's lock and shared-access hooks.
+static const char* kPText[4] = {"{\"a\":[1,2],\"b\":\"s\"}", "[[3],\"tt\",{\"k\":4}]", "[1, 2, tru", "{\"a\":"};
+static const bool kPValid[4] = {true, true, false, false};
+struct PoolDocProgram {
+  int nthreads;
+  std::vector<std::vector<int>> ops;
+  std::string name() const {
+    std::string s = "P documents over one shared pool: ";
+    for (int t = 0; t < nthreads; t++) {
+      s += "T" + std::to_string(t) + "[";
+      for (size_t i = 0; i < ops[t].size(); i++) s += std::string(i ? " ; " : "") + "Parse " + kPText[ops[t][i]];
+      s += "] ";
+    }
+    return s;
+  }
+};
+static void run_pooldoc_program(const PoolDocProgram& P) {
+  using Pool = MemoryPoolAllocator<>;
+  Pool pool;
+  std::vector<std::vector<std::unique_ptr<Document>>> docs(P.nthreads);
+  for (int t = 0; t < P.nthreads; t++)
+    for (size_t k = 0; k < P.ops[t].size(); k++) docs[t].emplace_back(new Document(&pool));
+  std::vector<std::string> obs(P.nthreads);
+  sch::run_threads(P.nthreads, [&](int t) {
+    for (size_t k = 0; k < P.ops[t].size(); k++) {
+      sch::point(0, nullptr);
+      const char* txt = kPText[P.ops[t][k]];
+      docs[t][k]->Parse(txt, std::strlen(txt));
+      obs[t] += docs[t][k]->HasParseError() ? "E" : "P";
+    }
+  });
+  char msg[400] = {0};
+  std::string out;
+  for (int t = 0; t < P.nthreads && !msg[0]; t++) {
+    out += obs[t] + "|";
+    for (size_t k = 0; k < P.ops[t].size() && !msg[0]; k++) {
+      int op = P.ops[t][k];
+      const Document& d = *docs[t][k];
+      if (kPValid[op]) {
+        if (d.HasParseError())
+          snprintf(msg, sizeof msg, "thread %d: Parse of the valid text %s failed with code %d", t, kPText[op], (int)d.GetParseError());
+        else {
+          std::string got = d.Dump();
+          if (got != kPText[op]) snprintf(msg, sizeof msg, "thread %d: the document parsed from %s reads back as %s after all threads finished (another thread's Parse wrote into its memory)", t, kPText[op], got.substr(0, 120).c_str());
+        }
+      } else if (!d.HasParseError() || !d.IsNull())
+        snprintf(msg, sizeof msg, "thread %d: Parse of the invalid text %s: error=%d isnull=%d", t, kPText[op], (int)d.GetParseError(), (int)d.IsNull());
+    }
+  }
+  snprintf(sch::g_res->outcome, sizeof sch::g_res->outcome, "%s size=%zu", out.c_str(), pool.Size());
+  if (msg[0]) {
+    sch::g_res->status = 1;
+    snprintf(sch::g_res->msg, sizeof sch::g_res->msg, "%s", msg);
+  }
+}
+
 // ------------------------------------------------------------------ explorer
 struct Explorer {
   std::function<void()> body;
@@ -527,6 +585,16 @@ int main(int argc, char** argv) {
     if (!quick) dprogs.push_back(DocProgram{kind, 3, {{3, 5, 6}, {2, 3, 1}, {4, 3, 0}}});
   }
 
+  // scenario P programs: 2 threads x 2 Parse calls from {valid object, valid array, truncated literal, truncated object}
+  std::vector<PoolDocProgram> pprogs;
+  for (int a = 0; a < 4; a++)
+    for (int b = 0; b < 4; b++)
+      for (int c = 0; c < 4; c++)
+        for (int d = 0; d < 4; d++) {
+          if (quick && !((a == 2 && b == 0) || (a == 3 && b == 1) || (a == 0 && b == 2) || (a == 0 && b == 1))) continue;
+          pprogs.push_back(PoolDocProgram{2, {{a, b}, {c, d}}});
+        }
+
   vr::Family fc, fc3, fd;
   fc.name = "SC_alloc_2threads_x2ops";
   fc.count = progs.size();
@@ -545,10 +613,18 @@ int main(int argc, char** argv) {
   fd.group = "SAB";
   fd.rule = "scenarios A (2 threads parse/mutate/lookup-miss/serialise their own documents) and B (2-3 threads, read-only operations on one shared document, with and without lookup map): all operation-level interleavings; every thread's observations must equal those of the sequential run";
 
+  vr::Family fp;
+  fp.name = "SP_documents_over_shared_pool";
+  fp.count = pprogs.size();
+  fp.chunk = 1;
+  fp.group = "SP";
+  fp.rule = "scenario P: 2 threads, each parsing 2 texts from {valid object, valid array, truncated literal, truncated object} into its own documents, all documents over ONE shared pool allocator (SONIC_LOCKED_ALLOCATOR): all schedules over the allocator's hooked points with at most " +
+            std::to_string(bound) + " preemptions; oracle after join: every document parsed from a valid text dumps that text, every rejected one is null with its error set";
+
   // Work items: for load balance every program is split into its default execution plus one item per
   // first-level alternative (subtree root) of that default execution; an item explores its subtree.
   struct Item {
-    int fam;  // 0 fc, 1 fc3, 2 fd
+    int fam;  // 0 fc, 1 fc3, 2 fd, 3 fp
     uint64_t prog;
     std::vector<uint8_t> root;
     bool root_only;
@@ -559,6 +635,11 @@ int main(int argc, char** argv) {
       pname = P.name();
       ex.body = [&P] { run_alloc_program(P); };
       ex.bound = bound;
+    } else if (famid == 3) {
+      const PoolDocProgram& P = pprogs[prog];
+      pname = P.name();
+      ex.body = [&P] { run_pooldoc_program(P); };
+      ex.bound = bound;
     } else {
       const DocProgram& P = dprogs[prog];
       pname = P.name();
@@ -566,13 +647,13 @@ int main(int argc, char** argv) {
       ex.bound = 64;  // operation-level points only: explore all interleavings
     }
   };
-  std::vector<Item> items[3];
+  std::vector<Item> items[4];
   const std::string only0 = args.get("only");
   if (!args.replay) {
-    for (int famid = 0; famid < 3; famid++) {
-      const std::string fname = famid == 0 ? fc.name : famid == 1 ? fc3.name : fd.name;
+    for (int famid = 0; famid < 4; famid++) {
+      const std::string fname = famid == 0 ? fc.name : famid == 1 ? fc3.name : famid == 2 ? fd.name : fp.name;
       if (!only0.empty() && only0 != fname) continue;
-      size_t np = famid == 0 ? progs.size() : famid == 1 ? progs3.size() : dprogs.size();
+      size_t np = famid == 0 ? progs.size() : famid == 1 ? progs3.size() : famid == 2 ? dprogs.size() : pprogs.size();
       for (uint64_t p = 0; p < np; p++) {
         Explorer ex;
         std::string pname;
@@ -596,9 +677,10 @@ int main(int argc, char** argv) {
     fc.count = items[0].size();
     fc3.count = items[1].size();
     fd.count = items[2].size();
+    fp.count = items[3].size();
   }
   vr::CheckFn check = [&](const vr::Family& f, uint64_t idx, vr::Ctx& ctx) {
-    int famid = f.name == fc.name ? 0 : f.name == fc3.name ? 1 : 2;
+    int famid = f.name == fc.name ? 0 : f.name == fc3.name ? 1 : f.name == fp.name ? 3 : 2;
     const Item& it = items[famid][idx];
     Explorer ex;
     std::string pname;
@@ -623,7 +705,7 @@ int main(int argc, char** argv) {
       ctx.violation(cls, cls, pname + " schedule " + show_sched(fl.choices), "%s under schedule %s: %s", pname.c_str(), show_sched(fl.choices).c_str(), fl.msg.c_str());
     }
   };
-  std::vector<vr::Family> fams = {fc, fc3, fd};
+  std::vector<vr::Family> fams = {fc, fc3, fd, fp};
   if (args.replay) {
     // replay one schedule of one program, twice, in-process fork
     uint64_t prog;
@@ -637,6 +719,10 @@ int main(int argc, char** argv) {
         const Program& P = f.name == fc.name ? progs[prog] : progs3[prog];
         pname = P.name();
         ex.body = [&P] { run_alloc_program(P); };
+      } else if (f.name[1] == 'P') {
+        const PoolDocProgram& P = pprogs[prog];
+        pname = P.name();
+        ex.body = [&P] { run_pooldoc_program(P); };
       } else {
         const DocProgram& P = dprogs[prog];
         pname = P.name();
